@@ -171,6 +171,7 @@ def run(ctx):
         for o in res.obligations:
             if o.rule in ("R1", "R1b"):
                 o.rule = {"R1": "X8", "R1b": "X7"}[o.rule]
+        _x10(rc, m, tag)
         if oname == "segment":
             check_split_index(rc, "X8", m, "rdp._rdp_fixed", allow_middle=True)
             check_children(rc, "X8", m, "rdp._rdp_fixed")
@@ -191,6 +192,38 @@ def run(ctx):
     from .common import hidden_state as _hidden_state
     _hidden_state(rc, "X9", ['rdp.rdp_fixed'], "fixed-size RDP")
     res.require_instances("C05 obligations", len(res.obligations), 40)
+
+
+def _x10(rc: RuleCtx, m: rm.LoopModel, tag: str):
+    """Every child that still has an interior point goes back on the work stack: the size budget can only be spent on
+    ranges that are on the stack, so a child withheld for another reason (its score, its position) makes the result
+    smaller than min(max(k, 2), n) once the other ranges are used up."""
+    res = rc.res
+    res.rule("X10", "each child range with an interior point (length > 2) is pushed, whatever its priority: otherwise fewer than the requested number of points can be returned")
+    for gi, idx in rm.index_cases(m):
+        if not g_sat(gi):
+            continue
+        for name, A, B in (("left", m.left, m.left + idx + C(1)), ("right", m.left + idx, m.right)):
+            has_room = canon_sign(B - A - C(2), OPS[">"])
+            pushed = FALSE
+            for p in m.pushes:
+                items = p.items[-2:]
+                for gc, ab in cases_of(lift(lambda a, b: Vec([a, b]), items[0], items[1])):
+                    a_, b_ = ab.items
+                    if isinstance(a_, Rat) and isinstance(b_, Rat) and a_.equals(A) and b_.equals(B):
+                        pushed = g_or(pushed, g_and(p.guard, gc))
+            want = g_and(gi, has_room)
+            if not g_sat(want):
+                continue
+            if g_implies(want, pushed):
+                res.ok("X10", f"{tag}:{name}", f"the {name} child is pushed whenever it has an interior point")
+            elif pushed.kind == "false":
+                # (a child that is never pushed under these bounds is X8's finding: the children are not the two halves)
+                continue
+            else:
+                res.violation("X10", m.fi.module, m.fi.name, m.loop, f"{tag}: the {name} child can be withheld from the work stack although it has an interior point: "
+                              "the loop then runs out of ranges before the size budget is spent and fewer points than requested are returned",
+                              _short(pushed, 220), f"pushed whenever {_short(has_room, 80)}", construct=f"child always pushed {name}")
 
 
 def _x1(rc: RuleCtx, m: rm.LoopModel, tag: str):
